@@ -1,6 +1,7 @@
 """C09 - unused removes or shrinks only what no output, constraint or objective can see"""
 from __future__ import annotations
 
+import corr_unused
 import semcheck
 import tgen
 import semprop
@@ -12,9 +13,13 @@ RULE = ('oracle cases = programs harvested from /repo/tests (inline,regression,u
 EXTRA = ['a(X) :- b(X). b(X) :- c(X). d :- a(1).', 'on :- not not latch. latch :- on, power. {power}.', 'bin(b,5). item(1,2). item(2,3). item(3,4). C = #sum{W,I : pick(B,I,W) : item(I,W)} :- bin(B,C). used(B) :- pick(B,_,_).', 'p(X,Y) :- q(X,Y). q(X,Y) :- r(Y,X). s(X) :- p(X,_). #show s/1.', 'a(X,X) :- b(X,Y). q(P,Q) :- a(P,Q), c(P), c(Q). #show q/2.']
 
 
+def corr(rng, quick):
+    return corr_unused.run(rng, 60 if quick else 2500, n_targeted=60 if quick else 2000, corpus_limit=60 if quick else None)
+
+
 def run(ctx) -> int:
     flags = [semcheck.flags_only("unused")]
-    return _generic.run_semantic(ctx, MODULE, LEVEL, RULE, flags, 'inout', {'regression', 'unused', 'inline'}, EXTRA, (110, 700), (80, 3000),
+    return _generic.run_semantic(ctx, MODULE, LEVEL, RULE, flags, 'inout', {'regression', 'unused', 'inline'}, EXTRA, (110, 700), (80, 3000), corr=[('unused', corr)],
                                  n_inst=5, facts_over='in', outp_choices=('auto',), one_to_one=True, generators=[tgen.GENERATORS['unused']],
                                  assumptions=("the pass's syntactic decisions are not derived from the ground-level side conditions in Lean (validated by the oracle)", 'instances range over the declared/auto-detected input predicates only'))
 
